@@ -83,7 +83,7 @@ def tasks(tier, seed, selftest=False):
 
 def main(tier, seed, t0, selftest=False):
     results = common.run_tasks(tasks(tier, seed, selftest))
-    return common.finish(PROP, tier, seed, "model_checking", results, t0, functions=FUNCTIONS,
+    return common.finish(PROP, tier, seed, "model_checking", results, t0, selftest=selftest, functions=FUNCTIONS,
                          bounds={"history": "quick: K=1 on U2 exhaustive, K=2 on U2 time-boxed 12 s per skeleton, K=1 on D3 time-boxed; thorough: K<=2 on U2 to exhaustion, K=3 on U2 / K=2 on D3 / K=1 on U3 time-boxed",
                                  "limits": f"-1(None)..{hist.MAXLIM}", "start nodes": f"None or any existing id <= {hist.MAXNODE}",
                                  "outside": "n>3, K>3, limits > 7"},
